@@ -5,6 +5,10 @@
  * C views: dense vector = int[dim] (carrier of Ring); sparse vector = one 64-bit cell per Nonzero<Ring> {val, idx}:
  * low half = val, high half = idx (as in unit svector). */
 #define WANT_SV_BULK
+#define WANT_SV_NORMS
+#include "constants.h"
+/* soplex::infinity (spxdefines.cpp: `const Real infinity = SOPLEX_DEFAULT_INFINITY;`, value cut from spxdefines.h each run) */
+static const double infinity = SOPLEX_DEFAULT_INFINITY;
 #include "sparse_alg.h"
 
 extern "C" { extern int* gp_val; extern long long* gp_elem; }
@@ -47,14 +51,15 @@ extern "C" int w_vb(int* val, int dim, long long* elem, int memsize, int* memuse
 #endif
 
 #ifdef SV_OP
-/* op 1: a *= x    2: a = b    3: a = w (dense)    4: a.add(b) */
-extern "C" void w_sv(long long* a, int amax, int* aused, long long* b, int bmax, int* bused, int* w, int dim, int xx)
+/* op 1: a *= x    2: a = b    3: a = w (dense)    4: a.add(b)    5: a.sort()    6: a.maxAbs()    7: a.minAbs()    8: a.length2() */
+extern "C" int w_sv(long long* a, int amax, int* aused, long long* b, int bmax, int* bused, int* w, int dim, int xx, const int* ps)
 {
    VIN("amax", amax); VIN("aused", *aused); VIN("bmax", bmax); VIN("bused", *bused); VIN("dim", dim); VIN("x", xx);
    SVectorBase<R> sa; sa.m_elem = (Nonzero<R>*)a; sa.memsize = amax; sa.memused = *aused;
    SVectorBase<R> sb; sb.m_elem = (Nonzero<R>*)b; sb.memsize = bmax; sb.memused = *bused;
    VectorBase<R> wv; wv.val.p = (R*)w; wv.val.n = dim;
    R xr; xr.v = xx;
+   int ret = 0;
 #if SV_OP == 1
    sa *= xr;
 #elif SV_OP == 2
@@ -63,7 +68,16 @@ extern "C" void w_sv(long long* a, int amax, int* aused, long long* b, int bmax,
    sa = wv;
 #elif SV_OP == 4
    sa.add(sb);
+#elif SV_OP == 5
+   sa.sort();
+#elif SV_OP == 6
+   { R r = sa.maxAbs(); ret = r.v; }
+#elif SV_OP == 7
+   { R r = sa.minAbs(); ret = r.v; }
+#elif SV_OP == 8
+   { R r = sa.length2(); ret = r.v; }
 #endif
    *aused = sa.memused; *bused = sb.memused;
+   return ret;
 }
 #endif
